@@ -246,6 +246,31 @@ def handle_parseline(text, version):
     }
 
 
+def sval_json(v, depth=12):
+    from tealer.analyses.utils.stack_ast_builder import UnknownStackValue
+
+    if depth == 0:
+        return "..."
+    if isinstance(v, UnknownStackValue):
+        return "U"
+    return [v.instruction.line, v.ins_out_values_index, [sval_json(a, depth - 1) for a in v.args]]
+
+
+def handle_ast(text):
+    from tealer.analyses.utils.stack_ast_builder import construct_stack_ast
+
+    teal, _, _ = quiet(parse_teal, text)
+    out = {}
+    for b in teal.bbs:
+        try:
+            ast = construct_stack_ast(b)
+            out[str(b.idx)] = {str(ins.line): [sval_json(a) for a in ast[ins].args] for ins in b.instructions}
+        except Exception as e:  # pylint: disable=broad-except
+            out[str(b.idx)] = {"err": exn(e)}
+    construct_stack_ast.cache_clear()
+    return out
+
+
 def handle_regex(text, label):
     from tealer.utils.regex.regex import Regex, match_regex
 
@@ -281,6 +306,8 @@ def main():
                 r = handle_analyze(text)
             elif kind == "parseline":
                 r = handle_parseline(text, int(rest[0]) if rest else 8)
+            elif kind == "ast":
+                r = handle_ast(text)
             elif kind == "regex":
                 r = handle_regex(text, rest[0] if rest else "*")
             else:
